@@ -425,8 +425,24 @@ let asm_case (w : string list) : string =
         (String.concat "," (List.map (fun ((a, sz), e) -> Printf.sprintf "%d:%d:%s" (int_of_n a) (int_of_n sz) (b2s e)) y.y_place))
         (nl y.y_addr1) (nl y.y_addr2)
 
+(* irq_frame <pc> <s> <f> <imr> <vector>: the frame Model/Irq.v pushes: new S, new IMR, new PC, five frame bytes, gate for <isr> *)
+let irq_case (w : string list) : string =
+  match List.map ios w with
+  | [pc; sp; f; imr; vec; isr] ->
+      let mem0 = [(z_of_int 1048827, z_of_int imr); (z_of_int 1048570, z_of_int (vec land 255));
+                  (z_of_int 1048571, z_of_int ((vec lsr 8) land 255)); (z_of_int 1048572, z_of_int (vec lsr 16))] in
+      let s0 = il_mk_state N0 N0 N0 N0 N0 (n_of_int sp) (n_of_int f) (List.init 14 (fun _ -> N0)) mem0 Z0 in
+      let s1 = il_set_pc s0 (z_of_int pc) in
+      let t = irq_deliver s1 in
+      let rs = List.map int_of_n (il_obs_regs t) in
+      let frame = List.init 5 (fun j -> string_of_int (int_of_z (irq_mem t (z_of_int (sp - 5 + j))))) in
+      Printf.sprintf "s=%d imr=%d pc=%d frame=%s gate=%s" (List.nth rs 6) (int_of_z (irq_mem t (z_of_int 1048827))) (List.nth rs 0)
+        (String.concat "." frame) (b2s (irq_gate (z_of_int imr) (z_of_int isr)))
+  | _ -> "ERR bad irq_frame"
+
 let handle (w : string list) : string =
   match w with
+  | "irq_frame" :: rest -> irq_case rest
   | "asm_layout" :: rest -> asm_case rest
   | "tsafe" :: rest -> tsafe_case rest
   | "spec" :: rest -> spec_case rest
